@@ -52,6 +52,12 @@ class Transaction:
         self._is_active = False
         self._is_committed = False
         self._is_rolled_back = False
+        # True from the moment commit() starts working until a failure is KNOWN
+        # to have happened before the commit point. While it is set, a rollback
+        # never deletes written files: an interrupt (KeyboardInterrupt,
+        # SystemExit) can leave commit() at any step boundary, also after the
+        # version hint was flipped, and the snapshot may reference the files.
+        self._commit_point_may_have_passed = False
 
         # Operations queue
         self._operations: List[Dict[str, Any]] = []
@@ -72,6 +78,7 @@ class Transaction:
             self._is_active = True
             self._is_committed = False
             self._is_rolled_back = False
+            self._commit_point_may_have_passed = False
             # Reset ALL per-transaction state. Leaving _operations populated
             # would silently re-apply a previous transaction's operations when
             # a Transaction object is reused.
@@ -362,6 +369,10 @@ class Transaction:
         if not self.is_active():
             raise RuntimeError("Transaction is not active")
 
+        # From here on the outcome is unknown until proven otherwise (see
+        # __init__): only the clean-failure handlers below clear this.
+        self._commit_point_may_have_passed = True
+
         with self._lock:
             if not self._operations:
                 # Empty transaction: nothing to persist - do NOT create a snapshot.
@@ -420,6 +431,8 @@ class Transaction:
                     return True
 
             except ConcurrentModificationException as e:
+                # Clean conflict: the hint was NOT flipped by this attempt.
+                self._commit_point_may_have_passed = False
                 retry_count += 1
                 if retry_count >= max_retries:
                     # Final failure - cannot commit even after retries
@@ -431,6 +444,7 @@ class Transaction:
                     delay = min(base_delay * (2 ** retry_count), max_delay)
                     delay += random.uniform(0, delay * 0.5)  # Add up to 50% jitter
                     time.sleep(delay)
+                    self._commit_point_may_have_passed = True
                     continue  # Retry the transaction
             except AmbiguousCommitError:
                 # The version-hint write failed in a way that may still have
@@ -440,10 +454,21 @@ class Transaction:
                 raise
             except Exception as e:
                 # Known-pre-commit-point failure - safe to clean up written files
+                self._commit_point_may_have_passed = False
                 self._rollback()
                 raise e
+            except BaseException:
+                # KeyboardInterrupt / SystemExit can arrive at ANY point, also
+                # right after the commit point and before _finish_committed().
+                # The outcome is then unknown: keep the files (GC removes true
+                # orphans). _commit_point_may_have_passed is still set, so even
+                # if this handler is itself interrupted a later rollback()
+                # / __exit__ cannot delete them.
+                self._rollback(delete_files=False)
+                raise
 
         # This line should not be reached if max_retries > 0, but added for completeness
+        self._commit_point_may_have_passed = False
         self._rollback()
         raise ConcurrentModificationException(f"Failed to commit after {max_retries} retries")
 
@@ -636,6 +661,11 @@ class Transaction:
         """
         self._is_active = False
         self._is_rolled_back = True
+
+        if delete_files and self._commit_point_may_have_passed:
+            # commit() was left (by an interrupt) without knowing whether the
+            # version hint was flipped: never delete what a snapshot may reference.
+            delete_files = False
 
         if not delete_files:
             logger.warning(
